@@ -100,7 +100,14 @@ structure State where
   polAcc : String
   feeAcc : String
   blocked : List String
+  /-- the chain's canonicalisation of the address strings in play (`AccAddressFromBech32(x).String()`,
+  recorded by the harness): provider and collateral records are keyed by the signer string as sent,
+  tokens move between the accounts those strings denote -/
+  canon : AMap String String := []
   deriving DecidableEq, Repr, Inhabited
+
+/-- the account an address string denotes (itself when the table has no entry) -/
+def acctOf (s : State) (a : String) : String := (AMap.get s.canon a).getD a
 
 def setFile (s : State) (f : File) : State :=
   { s with files := AMap.set s.files f.key f, files2 := AMap.set s.files2 f.key f }
